@@ -31,6 +31,8 @@ VARIANTS = {
              "ldflags": ["-fsanitize=address,undefined"]},
     "tsan": {"cxx": "g++", "cflags": ["-O1", "-g", "-fsanitize=thread"], "ldflags": ["-fsanitize=thread"]},
     "omp": {"cxx": "g++", "cflags": ["-O2", "-g1", "-fopenmp"], "ldflags": ["-fopenmp"]},
+    # line coverage of the library headers under the monitors' workloads (scripts/coverage.py; not part of any check)
+    "cov": {"cxx": "g++", "cflags": ["-O1", "-g1", "--coverage", "-fprofile-update=atomic"], "ldflags": ["--coverage"]},
 }
 
 QUICK_DIMS = [1, 2, 3, 4, 10]
